@@ -284,7 +284,7 @@ class C16(Prop):
             elif k < 0.3: rf = [ord("x")] * alen
             else:
                 p = rng.choice([0.3, 0.6, 0.9])
-                rf = [ord("x") if rng.random() < p else rng.choice([46, 46, 45, 95, 126]) for _ in range(alen)]
+                rf = [rng.choice([ord("x"), ord("x"), ord("X"), 200, 255]) if rng.random() < p else rng.choice([46, 46, 45, 95, 126, 128]) for _ in range(alen)]
         return rows, rf
 
     def thresholds(self, rng, aln, k):
